@@ -1,18 +1,37 @@
 #!/bin/sh
 # Private mount namespace + overlayfs sandbox for running the REAL proxy_agent_setup binary (C17).
 #
-#   ns_enter.sh <scratch-dir-under-.build> <command> [args...]
+#   [VERIF_C17_LAYOUT=separate|samefs] ns_enter.sh <scratch-dir-under-.build> <command> [args...]
 #
-# Re-executes itself under `unshare -m --propagation private`, mounts an overlayfs (lower = the real directory,
-# upper/work = <scratch>/ov/<dir>/{up,wk}) over every top-level directory the tool could touch, installs the
-# stand-in systemctl at /usr/bin/systemctl *inside the overlay* and first on PATH, and only then executes the
-# command.  Nothing is ever created in the real root: mount points are existing directories only (the missing
-# /etc/azure, /usr/lib/azure-proxy-agent are created by the tool itself, inside the upper layer).
+# Re-executes itself under `unshare -m --propagation private` and builds one of two layouts (the environment
+# dimension "is the tool's own folder on the file system of the system locations?"), then executes the command.
+#
+# separate (default)  an overlayfs (lower = the real directory, upper/work = <scratch>/ov/<dir>/{up,wk}) over every
+#                     top-level directory the tool could touch; the tool's folder stays in the scratch directory.
+#                     /etc, /usr and the tool's folder are three different mounts: link(2) between them is EXDEV.
+# samefs              ONE overlayfs whose lower layer is the whole real root (read-only by construction) and whose
+#                     upper/work live on a tmpfs private to the namespace (<scratch>/ov), mounted at <scratch>/root;
+#                     the command runs chroot-ed into it.  /etc/azure, /usr/sbin, /usr/lib/azure-proxy-agent,
+#                     /usr/lib/systemd/system and the tool's folder (/var/lib/waagent/...) are plain directories of
+#                     that one mount, so link(2) between them succeeds, as on a VM with one root file system.
+#                     Inside the new root only /proc (a fresh procfs), four device nodes (null zero urandom random,
+#                     bound one by one), the scratch directory and the tmpfs are not the overlay: every other path,
+#                     /verif and /repo included, is copy-on-write into the tmpfs and is gone with the namespace.
+#
+# Nothing is ever created in the real root: mount points are existing directories only (the missing /etc/azure,
+# /usr/lib/azure-proxy-agent are created by the tool itself, inside the upper layer); in the samefs layout the
+# mount points made for the device nodes are files of the upper layer.
+# The stand-in systemctl is installed at /usr/bin/systemctl *inside the overlay* and first on PATH.
 # Exit codes 96..99 are sandbox set-up failures (tool errors for the check, never verdicts).
 set -eu
 HERE=$(cd "$(dirname "$0")" && pwd)
 VERIF=$(cd "$HERE/../.." && pwd)
 OVERLAY_DIRS="etc usr var tmp root home opt srv mnt media"
+LAYOUT=${VERIF_C17_LAYOUT:-separate}
+case "$LAYOUT" in
+  separate|samefs) ;;
+  *) echo "ns_enter: unknown layout $LAYOUT" >&2; exit 96 ;;
+esac
 
 if [ "${1:-}" != "--inside" ]; then
   S=$1
@@ -22,6 +41,11 @@ if [ "${1:-}" != "--inside" ]; then
   esac
   VERIF_OUTER_MNTNS=$(readlink /proc/self/ns/mnt)
   export VERIF_OUTER_MNTNS
+  if [ "$LAYOUT" = samefs ]; then
+    # mount points for the tmpfs and the new root: plain directories of the scratch directory
+    rm -rf "$S/ov" "$S/root"
+    mkdir -p "$S/ov" "$S/root"
+  fi
   exec unshare -m --propagation private -- "$0" --inside "$@"
 fi
 shift
@@ -31,6 +55,46 @@ if [ "$(readlink /proc/self/ns/mnt)" = "${VERIF_OUTER_MNTNS:-none}" ] || [ -z "$
   echo "ns_enter: not in a private mount namespace, refusing" >&2
   exit 97
 fi
+VERIF_C17_SANDBOX="$S"
+export VERIF_C17_SANDBOX
+VERIF_C17_LAYOUT="$LAYOUT"
+export VERIF_C17_LAYOUT
+
+if [ "$LAYOUT" = samefs ]; then
+  R="$S/root"
+  [ -d "$S/ov" ] && [ -d "$R" ] || { echo "ns_enter: $S/ov or $R missing" >&2; exit 98; }
+  mount -t tmpfs -o mode=755 verif-c17-upper "$S/ov" || { echo "ns_enter: tmpfs mount failed" >&2; exit 98; }
+  grep -q "^verif-c17-upper $S/ov tmpfs " /proc/self/mounts || { echo "ns_enter: $S/ov is not the tmpfs" >&2; exit 98; }
+  mkdir "$S/ov/up" "$S/ov/wk"
+  mount -t overlay verif-c17-root -o "lowerdir=/,upperdir=$S/ov/up,workdir=$S/ov/wk" "$R" || {
+    echo "ns_enter: root overlay mount failed" >&2; exit 98; }
+  grep -q "^verif-c17-root $R overlay " /proc/self/mounts || { echo "ns_enter: $R is not the overlay" >&2; exit 98; }
+  # from here on everything is created below $R, i.e. in the upper layer on the tmpfs
+  mount -t proc verif-c17-proc "$R/proc" || { echo "ns_enter: proc mount failed" >&2; exit 98; }
+  for n in null zero urandom random; do
+    : > "$R/dev/$n"
+    mount --bind "/dev/$n" "$R/dev/$n" || { echo "ns_enter: bind of /dev/$n failed" >&2; exit 98; }
+  done
+  # the scratch directory (job, results, strace output, systemctl log) and the tmpfs (the driver lists the upper layer)
+  mount --bind "$S" "$R$S" || { echo "ns_enter: bind of the scratch directory failed" >&2; exit 98; }
+  mount --bind "$S/ov" "$R$S/ov" || { echo "ns_enter: bind of the tmpfs failed" >&2; exit 98; }
+  mkdir -p "$S/bin"
+  cp "$HERE/systemctl" "$S/bin/systemctl"
+  chmod 755 "$S/bin/systemctl"
+  cp "$HERE/systemctl" "$R/usr/bin/systemctl"
+  chmod 755 "$R/usr/bin/systemctl"
+  [ -e "$S/ov/up/usr/bin/systemctl" ] || { echo "ns_enter: stand-in systemctl did not land in the upper layer" >&2; exit 99; }
+  PATH="$S/bin:$PATH"
+  export PATH
+  # shellcheck disable=SC2016
+  exec chroot "$R" /bin/sh -c '
+    HERE=$1; shift
+    grep -q "^verif-c17-root / overlay " /proc/self/mounts || { echo "ns_enter: / is not the overlay" >&2; exit 98; }
+    cmp -s "$HERE/systemctl" "$(command -v systemctl)" || { echo "ns_enter: systemctl is not the stand-in" >&2; exit 99; }
+    cmp -s "$HERE/systemctl" /usr/bin/systemctl || { echo "ns_enter: /usr/bin/systemctl is not the stand-in" >&2; exit 99; }
+    exec "$@"' sh "$HERE" "$@"
+fi
+
 rm -rf "$S/ov"
 for d in $OVERLAY_DIRS; do
   [ -d "/$d" ] && [ ! -L "/$d" ] || continue
@@ -50,6 +114,4 @@ chmod 755 /usr/bin/systemctl
 cmp -s "$HERE/systemctl" "$(command -v systemctl)" || { echo "ns_enter: systemctl is not the stand-in" >&2; exit 99; }
 PATH="$S/bin:$PATH"
 export PATH
-VERIF_C17_SANDBOX="$S"
-export VERIF_C17_SANDBOX
 exec "$@"
